@@ -495,6 +495,33 @@ func c04Run(t *testing.T, st *vstat.Stats, p c04Plan) (v *viol) {
 			v = violf("right-password-fails", "live machine %d: the right password no longer works after wrong attempts: %v", target, err)
 			return
 		}
+		// every record encrypted under the password is sealed with a nonce of its own: two records under one key and one
+		// nonce give away the XOR of their plaintexts (and the public key is no secret)
+		{
+			nonces := map[string]string{}
+			it := m.M.VerifDB().NewIterator(nil, nil)
+			for it.Next() {
+				k := string(it.Key())
+				if k != "private_key" && k != "public_key" && !strings.HasPrefix(k, "bls_keyring") {
+					continue
+				}
+				val := it.Value()
+				if len(val) < 28 {
+					continue
+				}
+				nonce := string(val[:12])
+				if other, dup := nonces[nonce]; dup {
+					it.Release()
+					v = violf("encrypted-records-share-a-nonce", "machine %d: the database records %q and %q are sealed with the same key and the same nonce %x: their plaintexts follow from one another (the public key is known to everybody)", target, other, k, val[:12])
+					return
+				}
+				nonces[nonce] = k
+			}
+			it.Release()
+			if len(nonces) >= 2 {
+				st.Class("at-rest:record-nonces-distinct")
+			}
+		}
 		m.Close()
 		world.Drain()
 		files, _ := os.ReadDir(m.Dir)
